@@ -18,7 +18,7 @@
 // Scales: D_kj = sum_i |w_ij| |v_ik| with w = getDifferentiationWeights(x) (documented: Jacobian = values x weights), floored by
 // sum_i |iw_i||v_ik| / domain length so that a sum of rounding noise is never compared with a scale that is itself noise.
 #include "history.hpp"
-#include "maps.hpp"
+#include "refmodel/maps.hpp"
 
 namespace vf {
 namespace {
